@@ -32,6 +32,8 @@ Record case := mkcase {
   c_pair : option pairinfo;                        (* Some: a two-callable history (c_main = false) *)
   c_obs_ftype_ok : list (string * bool);           (* per field of the first request's class: does it carry the parameter's own
                                                       annotation (for an un-annotated parameter: the class-level one)? *)
+  c_tinfo : list (string * (bool * bool * bool));  (* for the same fields: is the parameter annotated / is there a class-level
+                                                      hint of that name / is that hint the parameter's annotation *)
   c_obs_aliased : list string                      (* parameters with a list/dict/set default that received (or whose field default
                                                       factory returns) the signature's default OBJECT itself, or whose signature
                                                       default changed after the received value was mutated *)
@@ -53,11 +55,11 @@ Definition fields_eqb (a b : res (list (string * option string))) : bool :=
   res_eqb (list_eqb (fun x y => String.eqb (fst x) (fst y) && vopt_eqb String.eqb (snd x) (snd y))) a b.
 
 Definition model_fields (s : sig string) (r : cfreq string) : res (list (string * option string)) :=
-  let fs := cf_fields facts_gen (ignore_names (rq_ignore r)) (rq_over r) s in
+  let fs := cf_fields facts_gen (ignore_names (f_cf_str_single facts_gen) (rq_ignore r)) (rq_over r) s in
   match setup facts_gen fs with Err e => Err e | Ok _ => Ok (map (fun f => (fl_name f, fl_default f)) fs) end.
 
 Definition model_inferred (s : sig string) (r : cfreq string) (untyped : list (string * dkind)) : list (string * ity) :=
-  let fs := cf_fields facts_gen (ignore_names (rq_ignore r)) (rq_over r) s in
+  let fs := cf_fields facts_gen (ignore_names (f_cf_str_single facts_gen) (rq_ignore r)) (rq_over r) s in
   let names := map fl_name fs in
   match setup facts_gen fs with Err _ => [] | Ok _ =>      (* no class, nothing to look at *)
   map (fun nd => (fst nd, infer (f_infer facts_gen) (snd nd)))
@@ -77,7 +79,7 @@ Definition pair_model_ok (c : case) (p : pairinfo) : bool :=
   let sigs := pair_sigs c p in
   let outs := snd (p_session String.eqb facts_gen sigs ([], []) (map (fun k => (k, plain_req)) p.(pi_steps))) in
   list_eqb (res_eqb Nat.eqb) outs (map po_label p.(pi_obs))
-  && list_eqb Nat.eqb p.(pi_steps) (map po_target p.(pi_obs))
+  && list_eqb Nat.eqb (map (fun k => if f_cf_target_set facts_gen then k else 2) p.(pi_steps)) (map po_target p.(pi_obs))
   && forall2b (fun k o => match model_fields (sigs k) plain_req with
                           | Ok fs => po_fields_eqb fs (po_fields o)
                           | Err _ => match po_fields o with [] => true | _ => false end
@@ -105,6 +107,18 @@ Definition pair_spec_ok (c : case) (p : pairinfo) : bool :=
      | None => false
      end.
 
+(* which type each field gets: the regenerated precedence chain of config_for decides *)
+Definition model_ftype_ok (s : sig string) (r : cfreq string) (tinfo : list (string * (bool * bool * bool))) : list (string * bool) :=
+  map (fun ni =>
+         let '(n, (annotated, has_hint, hint_same)) := ni in
+         let has_default := match find (fun p => String.eqb (p_name p) n) s with
+                            | Some p => match eff_default (rq_over r) p with Some _ => true | None => false end
+                            | None => false
+                            end in
+         (n, field_type_ok (f_cf_type_chain facts_gen) annotated has_hint hint_same has_default)) tinfo.
+Definition ftype_eqb (a b : list (string * bool)) : bool :=
+  list_eqb (fun x y => String.eqb (fst x) (fst y) && Bool.eqb (snd x) (snd y)) a b.
+
 Definition in_scope (c : case) : bool := true.
 
 Definition model_ok (c : case) : bool :=
@@ -120,8 +134,8 @@ Definition model_ok (c : case) : bool :=
         list_eqb (res_eqb Nat.eqb) (snd (cf_session String.eqb facts_gen c.(c_sig) ([], 0) c.(c_reqs))) c.(c_obs_session)
         && fields_eqb (model_fields c.(c_sig) r0) c.(c_obs_fields)
         && inferred_eqb (model_inferred c.(c_sig) r0 c.(c_untyped)) c.(c_obs_inferred)
-        && forallb snd c.(c_obs_ftype_ok)      (* the type chain regenerated (textually) by translate/Front.py: annotation first *)
-        && trace_eqb (cf_run facts_gen c.(c_sig) (ignore_names (rq_ignore r0)) (rq_over r0) (parsed_of c) c.(c_xpos) c.(c_xkw))
+        && ftype_eqb (model_ftype_ok c.(c_sig) r0 c.(c_tinfo)) c.(c_obs_ftype_ok)
+        && trace_eqb (cf_run facts_gen c.(c_sig) (ignore_names (f_cf_str_single facts_gen) (rq_ignore r0)) (rq_over r0) (parsed_of c) c.(c_xpos) c.(c_xkw))
                      observed
     end
   end.
@@ -138,7 +152,7 @@ Definition spec_ok (c : case) : bool :=
     | [] => false
     | r0 :: _ =>
         spec_session String.eqb c.(c_reqs) c.(c_obs_session)
-        && spec_fields String.eqb c.(c_sig) (ignore_names (rq_ignore r0)) (rq_over r0) c.(c_obs_fields)
+        && spec_fields String.eqb c.(c_sig) (spec_ignore_names (rq_ignore r0)) (rq_over r0) c.(c_obs_fields)
         && spec_inferred c.(c_untyped) c.(c_obs_inferred)
         && forallb snd c.(c_obs_ftype_ok)
         && match c.(c_obs_fields) with
